@@ -55,8 +55,9 @@ func corpus() []Case {
 		// passthrough: no merge worker; a chunk crossing a merge-buffer boundary; a chunk larger than the buffer
 		{Kind: "serve", ChunkSize: 4, Workers: 1, Cache: "dirdirect",
 			Tar: []Ent{{Name: "f", Kind: "reg", Mode: 0o644, Mtime: 1, Data: seqBytes(14, 1)}, {Name: "g", Kind: "reg", Mode: 0o644, Mtime: 1, Data: seqBytes(14, 50)},
-				{Name: "h", Kind: "reg", Mode: 0o644, Mtime: 1, Data: seqBytes(14, 100)}, {Name: "i", Kind: "reg", Mode: 0o644, Mtime: 1, Data: seqBytes(16, 150)}},
-			Ops: []Op{{Op: "pt", File: 0, Mbs: 8, Workers: 0}, {Op: "pt", File: 1, Mbs: 6, Workers: 2}, {Op: "pt", File: 2, Mbs: 3, Workers: 1},
+				{Name: "h", Kind: "reg", Mode: 0o644, Mtime: 1, Data: seqBytes(14, 100)}, {Name: "i", Kind: "reg", Mode: 0o644, Mtime: 1, Data: seqBytes(16, 150)},
+				{Name: "j", Kind: "reg", Mode: 0o644, Mtime: 1}, {Name: "k", Kind: "reg", Mode: 0o644, Mtime: 1, Data: seqBytes(26, 200)}},
+			Ops: []Op{{Op: "pt", File: 5, Mbs: 12, Workers: 2}, {Op: "pt", File: 4, Mbs: 0, Workers: 2}, {Op: "pt", File: 0, Mbs: 8, Workers: 0}, {Op: "pt", File: 1, Mbs: 6, Workers: 2}, {Op: "pt", File: 2, Mbs: 3, Workers: 1},
 				{Op: "pt", File: 3, Mbs: 8, Workers: 3}, {Op: "read", File: 0, Off: 3, Len: 9}, {Op: "pt", File: 0, Mbs: 8, Workers: 2}}},
 		// two layers of the same shape through one resolver: same node ids and chunk keys, different bytes; A read before B
 		{Kind: "layers", ChunkSize: 4,
@@ -366,10 +367,7 @@ func genServe(r *hx.Rng, tier string) Case {
 		switch r.Pick(76, 6, 12, 6, wpar, 3, wpt) {
 		case 6:
 			cs := int64(c.ChunkSize)
-			mbs := []int64{1, cs - 1, cs, cs + 1, 2 * cs, 2*cs + 1, 3*cs - 1, 5 * cs, 1 << 20}[r.Intn(9)]
-			if mbs < 1 {
-				mbs = 1
-			}
+			mbs := []int64{0, 1, cs - 1, cs, cs + 1, 2 * cs, 2*cs + 1, 3*cs - 1, 3 * cs, 4 * cs, 5 * cs, 5 * cs, 1 << 20}[r.Intn(13)]
 			c.Ops = append(c.Ops, Op{Op: "pt", File: r.Intn(8), Mbs: mbs, Workers: r.Range(0, 4)})
 		case 5:
 			c.Ops = append(c.Ops, Op{Op: "grow"})
